@@ -719,9 +719,14 @@ func (r *Runner) Run(bi int, sc *Script, st *Stats) ([]Mismatch, error) {
 			}
 		}
 	}
-	if r.o.Corrupt && nh > 0 && len(s.accepted[0]) > 0 {
-		// self-test of the binding: forget the first message the endpoint of hook 1 accepted
-		s.accepted[0] = s.accepted[0][1:]
+	if r.o.Corrupt {
+		// self-test of the binding: forget the first message that the endpoint of some hook accepted
+		for h := 0; h < nh; h++ {
+			if len(s.accepted[h]) > 0 && s.accepted[h][0].sentinel == 0 {
+				s.accepted[h] = s.accepted[h][1:]
+				break
+			}
+		}
 	}
 	before := len(s.out)
 	for h := 0; h < nh; h++ {
